@@ -18,17 +18,23 @@ RULE = ("the full product {std::vector, list, deque, map, std::array, built-in a
 
 def run(tier, replay=None):
     run_ = verdict.Run(PROP, tier, LEVEL, replay_of=replay)
+    import shutil
     tags = ["gasan"] if tier == "quick" else ["gasan", "casan"]
+    if shutil.which("valgrind"):
+        tags = tags + ["memcheck"]     # the uninstrumented build under valgrind memcheck (uninitialised values)
     maxlen = 5 if tier == "quick" else 64
     total = {}
     for tag in tags:
-        exe = build.build_exe(tag, ["iteradapt.cpp"])
+        exe = build.build_exe(tag if tag != "memcheck" else "plain", ["iteradapt.cpp"])
         env = dict(os.environ)
         env.update(driver.SAN_ENV)
         try:
             extra = ["16", "17", "33", "64", "65", "255", "256", "257", "1000", "65537"] if tier == "quick" else \
                 ["100", "255", "256", "257", "1000", "4097", "70000"]
-            p = subprocess.run([exe, str(maxlen)] + extra, capture_output=True, env=env, timeout=1800)
+            cmd = [exe, str(maxlen)] + extra
+            if tag == "memcheck":
+                cmd = list(driver.MEMCHECK) + [exe, "4", "17", "65", "257"]
+            p = subprocess.run(cmd, capture_output=True, env=env, timeout=1800)
         except subprocess.TimeoutExpired:
             run_.inconc("wall-clock watchdog fired")
             continue
